@@ -193,11 +193,13 @@ def run_shard(desc, acc):
         if j % n == i:
             r = rand.rng(seed, "c11wide", j)
             k = r.randint(11, 13)
-            kids = [{"name": f"K{q}", "rels": []} for q in range(k)]
+            used = set()
+            nms = [rand.plain_name(r, used) for _ in range(k)]      # (no numeric suffix pattern: names must not
+            kids = [{"name": x, "rels": []} for x in nms]            #  be derivable from one another)
             spec = {"root": {"name": "W", "rels": [{"min": 0, "max": 1, "children": [c]} for c in kids]}, "ctcs": []}
-            t = "K0"
+            t = nms[0]
             for q in range(1, k):
-                t = [r.choice(["AND", "OR", "IMPLIES"]), t, f"K{q}"]
+                t = [r.choice(["AND", "OR", "IMPLIES"]), t, nms[q]]
             spec["ctcs"] = [{"name": "wide", "ast": t}]
             run_case(acc, "wide-constraint", spec, [])
     for wi, k in enumerate((9, 10, 11, 12, 13)):
